@@ -211,6 +211,22 @@ def count_oracle(ctx, quick):
                     sl = slope([n for n, _ in big], [v for _, v in big])
                     if sl > 2.35 and big[-1][1] > 0.5:
                         ctx.fail("time:superquadratic", "family %r: handler calls grow %.1fx per doubling and CPU time with exponent %.2f (%s) under %s" % (f, r2, sl, {n: round(v, 3) for n, v in pts}, cfg["name"]), rep)
+    # the Markdown and RST renderers walk the tree themselves: nested constructs under those renderers, by time
+    rfams = [(o, "x", c) for o, c in OPENERS] + [("> ", "x", ""), ("- ", "x", ""), ("1. ", "x", ""), ("> - ", "x", "")]
+    rsizes = [6, 12, 24]
+    for rc in (configs.C("markdown-core", renderer="markdown"), configs.C("rst-core", renderer="rst")):
+        rtasks = [(rc, build3(f, n), 6.0) for f in rfams for n in rsizes]
+        rres = worker.run_all(rtasks, workers=14)
+        for i, f in enumerate(rfams):
+            rs = rres[i * 3:(i + 1) * 3]
+            ts = [r.get("cpu") if r["status"] == "ok" else r["status"] for r in rs]
+            rep = {"prefix": "", "unit": "", "suffix": "", "family3": list(f), "config": rc, "cpu_s": dict(zip(map(str, rsizes), ts)), "doc_n12": build3(f, 12)}
+            if "timeout" in ts:
+                k = ts.index("timeout")
+                ctx.fail("work:tiny-input-timeout:%s" % rc["renderer"], "the %d-character input %r (family %r, n=%d) does not convert within 6 s with the %s renderer" % (len(build3(f, rsizes[k])), build3(f, rsizes[k])[:60], f, rsizes[k], rc["renderer"]), rep)
+            elif all(isinstance(t, float) for t in ts) and ts[2] > 1.0 and ts[2] > 20 * max(ts[1], 1e-4):
+                ctx.fail("time:exponential:%s" % rc["renderer"], "family %r with the %s renderer: CPU time %s for n = %s" % (f, rc["renderer"], [round(t, 4) for t in ts], rsizes), rep)
+        tasks += rtasks
     ctx.cov["count_families"] = len(fams)
     ctx.cov["worst_handler_growth_per_doubling"] = round(worst, 2)
     return len(tasks)
